@@ -27,13 +27,13 @@ const (
 
 // Ctx is what a rule set works with.
 type Ctx struct {
-	P    *load.Program
-	R    *ob.Run
-	X    *an.Extractor // inlines module-local callees (depth 4)
-	XO   *an.Extractor // keeps anchored functions opaque, looks through helpers
+	P  *load.Program
+	R  *ob.Run
+	X  *an.Extractor // inlines module-local callees (depth 4)
+	XO *an.Extractor // keeps anchored functions opaque, looks through helpers
 
 	callers map[*ssa.Function][]*ssa.Function
-	Tier string
+	Tier    string
 }
 
 // A RuleSet evaluates all rules of one property on one loaded configuration.
